@@ -136,15 +136,18 @@ def _classify(model: Model, folder: Folder, fi: FuncInfo, st: ast.If, test: ast.
                 consts = {'low': lows, 'high': highs, 'var': sorted({lname(v.left) for v in test.values if isinstance(v, ast.Compare)})}
         if kind == 'other' and isinstance(test, ast.UnaryOp) and isinstance(test.op, ast.Not) and isinstance(test.operand, ast.Call):
             call = test.operand
+            src = None
             if isinstance(call.func, ast.Name):
                 # validator = Message.Length.get(msg, default)
-                src = None
                 for n in walk_no_nested(fi.node):
                     if isinstance(n, ast.Assign) and isinstance(n.targets[0], ast.Name) and n.targets[0].id == call.func.id:
                         src = n.value
-                if src is not None and 'Message.Length' in norm(src):
-                    kind = 'type-length'
-                    consts = {'table': 'Message.Length', 'arg': lname(call.args[0]) if call.args else ''}
+            elif isinstance(call.func, ast.Call):
+                # Message.Length.get(msg, default)(length): the table looked up in place
+                src = call.func
+            if src is not None and 'Message.Length' in norm(src):
+                kind = 'type-length'
+                consts = {'table': 'Message.Length', 'arg': lname(call.args[0]) if call.args else ''}
         if kind == 'other' and isinstance(test, ast.UnaryOp) and isinstance(test.op, ast.Not) and isinstance(test.operand, ast.Name):
             # `if not number:` -> complete message without body
             if err is None:
@@ -484,11 +487,11 @@ def _r4_exact(model: Model, run: Run, folder: Folder) -> None:
     # view = memoryview(buffer); buffer = bytearray(number)
     vdefs = [v for v, _ in sl.defs.get(view_name, [])]
     buf_ok = False
+    el4 = Loc(model, fi)
     for v in vdefs:
-        if isinstance(v, ast.Call) and isinstance(v.func, ast.Name) and v.func.id == 'memoryview' and v.args and isinstance(v.args[0], ast.Name):
-            for b, _ in sl.defs.get(v.args[0].id, []):
-                if isinstance(b, ast.Call) and isinstance(b.func, ast.Name) and b.func.id == 'bytearray' and b.args and isinstance(b.args[0], ast.Name) and b.args[0].id == number:
-                    buf_ok = True
+        # memoryview(buffer) with buffer = bytearray(number), or memoryview(bytearray(number)) in one expression
+        if el4.expand(v, depth=3) == 'memoryview(bytearray(%s))' % number:
+            buf_ok = True
     run.check(buf_ok and len(vdefs) == 1, fi.qualname, 'buffer is bytearray(%s) viewed once' % number, fi.loc(), 'the buffer must be exactly `number` bytes long')
     # loop test
     loop = None
@@ -584,6 +587,23 @@ def _r5_unknown_type(model: Model, run: Run, folder: Folder) -> None:
             if a0.endswith('.code') and a1.endswith('.subcode') and a0.split('.')[0] == a1.split('.')[0]:
                 ok = True
     run.check(ok, fi.qualname, 'reader error converted with its own code and subcode', fi.loc(), 'Notify(notify.code, notify.subcode, ...) expected')
+    # ... and looked at FIRST: the readers hand back (0, 0, header, b'', error) for a marker fault or a Length of 0, so nothing
+    # may leave read_message (a no-op message, say) between the reader call and the test of the error it returned
+    from ..cfg import CFG
+
+    loc5 = Loc(model, fi)
+    unp = loc5.unpacked_from_call('Connection.reader_async', 'Connection.reader')
+    errv = unp.get(4)
+    rd = [n for n in walk_no_nested(fi.node) if isinstance(n, ast.Call) and model.call_matches(mod, n, 'Connection.reader_async', 'Connection.reader')]
+    tests = [n for n in walk_no_nested(fi.node) if isinstance(n, ast.If) and errv and any(isinstance(x, ast.Name) and x.id == errv for x in ast.walk(n.test)) and any(isinstance(r, ast.Raise) for r in walk_no_nested(n))]
+    if not rd or not tests:
+        run.cannot('read_message: the reader call or the test of its error was not found')
+    else:
+        cfg5 = CFG(fi.node)
+        a5 = cfg5.stmt_node_containing(rd[0])
+        targets5 = {x.id for x in cfg5.nodes_of(tests[0])} | ({cfg5.stmt_node_containing(tests[0].test).id} if cfg5.stmt_node_containing(tests[0].test) is not None else set())
+        ok5, path5 = (False, []) if a5 is None else cfg5.all_paths_pass(a5.id, targets5, {cfg5.exit.id}, skip_labels=('exc',))
+        run.check(ok5, fi.qualname, 'the error handed back by the reader is tested before anything leaves read_message', fi.loc(tests[0]), 'a path from the reader call leaves the function without testing `%s`: a header fault reported as (0, 0, header, error) is taken for "nothing read yet", no NOTIFICATION is sent and the next octets of the stream are read as a header: %s' % (errv, ' -> '.join(cfg5.describe_path(path5)[-4:]) if not ok5 else ''))
 
 
 def _r6_msg_size(model: Model, run: Run, folder: Folder) -> None:
